@@ -1032,6 +1032,28 @@ def run_c12_ble(case, R):
                 if got != [{(1, 11): {"value": 40 + n_}}]:
                     R.fail("C12.listener-log", f"{what}: notification for 11 (value {40 + n_}): listeners saw {logs[0]!r:.300}", kind="missing" if not got else "different", raising_peer=False)
                     return
+            if case.get("double") is not None and 11 in c0.notify:
+                # two changes in quick succession: the second indication arrives while the read the first one started is still in flight.
+                # Whatever is coalesced, the listeners end up with the accessory's last value
+                for l_ in logs:
+                    l_.clear()
+                h = next(h_ for h_ in w.acc.handles if h_.iid == 11)
+                w.acc.chars[11]["value"] = bytes([101])
+                c0.notify[11](h, bytearray())
+                for _ in range(case["double"]):
+                    await asyncio.sleep(0)
+                w.acc.chars[11]["value"] = bytes([102])
+                c0.notify[11](h, bytearray())
+                await asyncio.sleep(10)
+                await vtime.settle(loop)
+                if not listeners_agree(R, logs, what):
+                    return
+                seen = [ev[(1, 11)]["value"] for ev in logs[0] if (1, 11) in ev]
+                R.cls("ble-double-indication")
+                if not seen or seen[-1] != 102:
+                    R.fail("C12.listener-log", f"{what}: two indications {case['double']} loop iterations apart (values 101, 102): listeners saw {seen}; the accessory holds 102",
+                           kind="missing", raising_peer=False)
+                    return
             if case.get("reconnect"):
                 c0.drop()
                 await vtime.settle(loop)
@@ -1062,6 +1084,9 @@ def enum_c12_ble(tier):
                 yield {"ids": ids, "fail": {str(f): how}}
         if n >= 3:
             yield {"ids": ids, "fail": {str(ids[0]): "always", str(ids[1]): "once"}, "parts": [ids[:1], ids[1:]], "gap": 0.1}
+    for d in range(0, 14):
+        yield {"ids": [10, 11], "double": d}
+        yield {"ids": [11, 12, 14], "double": d, "reconnect": True}
 
 
 @st.composite
@@ -1070,7 +1095,7 @@ def c12_ble_cases(draw):
     fail = {str(i): draw(st.sampled_from(["once", "always"])) for i in ids if draw(st.integers(0, 3)) == 0}
     cut = draw(st.integers(0, len(ids)))
     return {"ids": ids, "fail": fail, "parts": [x for x in (ids[:cut], ids[cut:]) if x], "gap": draw(st.sampled_from([0, 0.1, 5])), "reconnect": not fail and draw(st.booleans()),
-            "k": draw(st.integers(0, 5))}
+            "k": draw(st.integers(0, 5)), "double": draw(st.one_of(st.none(), st.integers(0, 20)))}
 
 
 C12_BLE_LAYERS = [
